@@ -18,6 +18,7 @@ import (
 	"github.com/coredhcp/coredhcp/server"
 	"github.com/insomniacslk/dhcp/dhcpv4"
 	"github.com/insomniacslk/dhcp/dhcpv6"
+	"github.com/insomniacslk/dhcp/iana"
 	"golang.org/x/net/ipv4"
 	"golang.org/x/net/ipv6"
 	"pgregory.net/rapid"
@@ -97,6 +98,10 @@ func synSetup4(args ...string) (handler.Handler4, error) {
 		case "modify":
 			addMark4(resp, tag)
 			return resp, false
+		case "modifyx":
+			addMark4(resp, tag)
+			resp.UpdateOption(dhcpv4.OptMessage("no address available"))
+			return resp, false
 		case "replace":
 			n, _ := dhcpv4.FromBytes(resp.ToBytes())
 			addMark4(n, tag)
@@ -137,6 +142,10 @@ func synSetup6(args ...string) (handler.Handler6, error) {
 		switch kind {
 		case "modify":
 			addMark6(resp, tag)
+			return resp, false
+		case "modifyx":
+			addMark6(resp, tag)
+			resp.AddOption(&dhcpv6.OptStatusCode{StatusCode: iana.StatusNoAddrsAvail, StatusMessage: "none"})
 			return resp, false
 		case "replace":
 			n, _ := dhcpv6.FromBytes(resp.ToBytes())
@@ -212,8 +221,12 @@ func GenO(t *rapid.T) OCase {
 		switch {
 		case k <= 4:
 			e.Beh = "pass"
-		case k <= 9:
+		case k <= 8:
 			e.Beh = "modify:" + tag
+		case k == 9:
+			// modifies the response in a way a server might be tempted to read: a message-level
+			// status code that is not Success (DHCPv6), an error message option (DHCPv4)
+			e.Beh = "modifyx:" + tag
 		case k <= 12:
 			e.Beh = "replace:" + tag
 		case k <= 15:
@@ -305,7 +318,7 @@ func expectRun(l []OEntry, ids []int, proto int) (log []invocation, final string
 		log = append(log, invocation{Proto: proto, ID: fmt.Sprintf("%d.%d", proto, i), Markers: cur})
 		kind, tag, _ := strings.Cut(e.Beh, ":")
 		switch kind {
-		case "modify", "replace":
+		case "modify", "modifyx", "replace":
 			cur += tag
 		case "stop":
 			return log, cur + tag, true
